@@ -419,3 +419,376 @@ Proof.
   destruct H1 as (E1 & E2). destruct H2 as (F1 & F2). destruct H3 as (_ & _ & Hm).
   subst es1. rewrite acks_events_of by exact Hm. rewrite F1. split; [reflexivity|congruence].
 Qed.
+
+(* ---------- v2: the remaining clauses of the monitor ---------- *)
+Lemma dlqs_of_app a b : dlqs_of (a ++ b) = dlqs_of a ++ dlqs_of b.
+Proof. unfold dlqs_of. apply flat_map_app. Qed.
+
+Lemma dlqs_of_seq_ack k n : dlqs_of (seq_ev SrcAck k n) = [].
+Proof.
+  unfold seq_ev, dlqs_of. revert k; induction n as [|n IH]; intros k; [reflexivity|].
+  cbn. apply IH.
+Qed.
+
+(* what the DLQ confirmed in one written run: in order, within the run, rejected records only *)
+Definition dlq_block_ok (k n : nat) (l : list nat) : Prop :=
+  increasing l = true /\ forall j, In j l -> k <= j < k + n.
+
+Lemma dlqs_of_dlq_oks_bounds : forall dfs k j, In j (dlqs_of (dlq_oks k dfs)) -> k <= j < k + length dfs.
+Proof.
+  induction dfs as [|df dfs IH]; intros k j Hj; [cbn in Hj; tauto|].
+  cbn [dlq_oks] in Hj. rewrite dlqs_of_app in Hj. apply in_app_or in Hj. cbn [length].
+  destruct Hj as [Hj|Hj].
+  - destruct df; cbn in Hj; [tauto|]. destruct Hj as [<-|[]]. lia.
+  - apply IH in Hj. lia.
+Qed.
+
+Lemma dlqs_of_dlq_oks_increasing : forall dfs k, increasing (dlqs_of (dlq_oks k dfs)) = true.
+Proof.
+  induction dfs as [|df dfs IH]; intros k; [reflexivity|].
+  cbn [dlq_oks]. rewrite dlqs_of_app. destruct df; cbn [dlqs_of flat_map app]; [apply IH|].
+  apply increasing_cons_lb; [|apply IH].
+  intros j Hj. apply dlqs_of_dlq_oks_bounds in Hj. lia.
+Qed.
+
+Lemma filter_none {A} (p : A -> bool) l : (forall a, In a l -> p a = false) -> filter p l = [].
+Proof.
+  induction l as [|a l IH]; intros H; [reflexivity|]. cbn. rewrite (H a (or_introl eq_refl)).
+  apply IH. intros b Hb. apply H. right. exact Hb.
+Qed.
+
+(* below the first bad record, everything written was confirmed *)
+Lemma dlqs_of_dlq_oks_below : forall dfs k,
+  filter (fun j => j <? k + first_fail dfs) (dlqs_of (dlq_oks k dfs)) = seq k (first_fail dfs).
+Proof.
+  induction dfs as [|df dfs IH]; intros k; [reflexivity|].
+  cbn [dlq_oks first_fail]. rewrite dlqs_of_app. destruct df.
+  - cbn [dlqs_of flat_map app seq]. apply filter_none.
+    intros j Hj. apply dlqs_of_dlq_oks_bounds in Hj. apply Nat.ltb_ge. lia.
+  - cbn [dlqs_of flat_map app seq filter].
+    assert (E : (k <? k + S (first_fail dfs)) = true) by (apply Nat.ltb_lt; lia).
+    rewrite E. f_equal. replace (k + S (first_fail dfs)) with (S k + first_fail dfs) by lia.
+    apply IH.
+Qed.
+
+Lemma nacks_below_nack_recs : forall dfs k m rest,
+  m <= length dfs -> nacks_below k (nack_recs dfs ++ rest) m = seq k m.
+Proof.
+  induction dfs as [|df dfs IH]; intros k m rest Hm; destruct m as [|m].
+  - destruct rest; reflexivity.
+  - cbn [length] in Hm. lia.
+  - reflexivity.
+  - cbn [length] in Hm. cbn [nack_recs map app nacks_below seq]. f_equal.
+    apply (IH (S k) m rest). lia.
+Qed.
+
+Lemma nacks_below_ack_recs : forall dfs k m rest,
+  m <= length dfs -> nacks_below k (ack_recs dfs ++ rest) m = [].
+Proof.
+  induction dfs as [|df dfs IH]; intros k m rest Hm; destruct m as [|m].
+  - destruct rest; reflexivity.
+  - cbn [length] in Hm. lia.
+  - reflexivity.
+  - cbn [length] in Hm. cbn [ack_recs map app nacks_below].
+    apply (IH (S k) m rest). lia.
+Qed.
+
+Lemma nacks_below_app : forall l1 k m l2,
+  nacks_below k (l1 ++ l2) (length l1 + m)
+  = nacks_below k (l1 ++ l2) (length l1) ++ nacks_below (k + length l1) l2 m.
+Proof.
+  induction l1 as [|[x df] l1 IH]; intros k m l2.
+  - cbn. rewrite Nat.add_0_r. destruct m; destruct l2; reflexivity.
+  - cbn [app length Nat.add nacks_below]. rewrite IH. rewrite app_assoc.
+    replace (k + S (length l1)) with (S k + length l1) by lia. reflexivity.
+Qed.
+
+Lemma filter_app_split {A} (p : A -> bool) l1 l2 : filter p (l1 ++ l2) = filter p l1 ++ filter p l2.
+Proof. apply filter_app. Qed.
+
+Lemma increasing_app l1 l2 b :
+  increasing l1 = true -> increasing l2 = true ->
+  (forall j, In j l1 -> j < b) -> (forall j, In j l2 -> b <= j) ->
+  increasing (l1 ++ l2) = true.
+Proof.
+  induction l1 as [|a l1 IH]; intros H1 H2 Hlt Hge; [exact H2|].
+  cbn [app]. apply increasing_cons_lb.
+  - intros j Hj. apply in_app_or in Hj. destruct Hj as [Hj|Hj].
+    + destruct l1 as [|c l1]; [destruct Hj|].
+      change (increasing (a :: c :: l1)) with ((a <? c) && increasing (c :: l1)) in H1.
+      apply andb_true_iff in H1. destruct H1 as (Hac & Hinc). apply Nat.ltb_lt in Hac.
+      destruct Hj as [<-|Hj]; [exact Hac|].
+      (* an increasing list is bounded below by its head *)
+      clear - Hinc Hj Hac. revert c Hinc Hj Hac. induction l1 as [|d l1 IHl]; intros c Hinc Hj Hac; [destruct Hj|].
+      change (increasing (c :: d :: l1)) with ((c <? d) && increasing (d :: l1)) in Hinc.
+      apply andb_true_iff in Hinc. destruct Hinc as (Hcd & Hinc). apply Nat.ltb_lt in Hcd.
+      destruct Hj as [<-|Hj]; [lia|]. apply (IHl d Hinc Hj). lia.
+    + specialize (Hlt a (or_introl eq_refl)). specialize (Hge j Hj). lia.
+  - apply IH; auto.
+    + destruct l1 as [|c l1]; [reflexivity|].
+      change (increasing (a :: c :: l1)) with ((a <? c) && increasing (c :: l1)) in H1.
+      apply andb_true_iff in H1. tauto.
+    + intros j Hj. apply Hlt. right. exact Hj.
+Qed.
+
+Lemma dlq_first_app : forall es1 acked es2,
+  dlq_first acked (es1 ++ es2) = dlq_first acked es1 && dlq_first (rev (acks_of es1) ++ acked) es2.
+Proof.
+  induction es1 as [|[k|k] es1 IH]; intros acked es2.
+  - reflexivity.
+  - cbn [app dlq_first]. rewrite IH. cbn [acks_of flat_map app]. fold (acks_of es1).
+    rewrite andb_assoc. reflexivity.
+  - cbn [app dlq_first]. rewrite IH. cbn [acks_of flat_map app]. fold (acks_of es1).
+    cbn [rev]. rewrite <- app_assoc. reflexivity.
+Qed.
+
+Lemma dlq_first_dlq_oks : forall dfs k acked,
+  (forall j, In j acked -> j < k) -> dlq_first acked (dlq_oks k dfs) = true.
+Proof.
+  induction dfs as [|df dfs IH]; intros k acked H; [reflexivity|].
+  cbn [dlq_oks]. destruct df; cbn [app].
+  - apply IH. intros j Hj. apply H in Hj. lia.
+  - cbn [dlq_first].
+    assert (E : existsb (Nat.eqb k) acked = false).
+    { destruct (existsb (Nat.eqb k) acked) eqn:E; [|reflexivity].
+      apply existsb_exists in E. destruct E as (j & Hj & Ej). apply Nat.eqb_eq in Ej. subst j.
+      apply H in Hj. lia. }
+    rewrite E. cbn [negb andb]. apply IH. intros j Hj. apply H in Hj. lia.
+Qed.
+
+Lemma dlq_first_seq_ack : forall n k acked, dlq_first acked (seq_ev SrcAck k n) = true.
+Proof.
+  unfold seq_ev. induction n as [|n IH]; intros k acked; [reflexivity|]. cbn. apply IH.
+Qed.
+
+Lemma nth_app_nack_recs dfs rest i :
+  i < length dfs -> fst (nth i (nack_recs dfs ++ rest) (false, false)) = true.
+Proof.
+  intros H. rewrite app_nth1 by (unfold nack_recs; rewrite map_length; exact H).
+  unfold nack_recs. rewrite (nth_indep _ (false, false) ((fun df => (true, df)) false))
+    by (rewrite map_length; exact H).
+  rewrite map_nth. reflexivity.
+Qed.
+
+Lemma spec_route_le size t : forall rs s, fst (spec_route size t s rs) <= length rs.
+Proof.
+  induction rs as [|[x df] rs IH]; intros s; cbn [spec_route]; [cbn; lia|].
+  destruct (spec_step size t s x) as [s' d]. destruct (x && (negb d || df)); [cbn; lia|].
+  specialize (IH s'). destruct (spec_route size t s' rs). cbn in *. lia.
+Qed.
+
+Definition batch_mon (k : nat) (rs : list (bool * bool)) (m : nat) (acked : list nat) (es : list ev) : Prop :=
+  filter (fun j => j <? k + m) (dlqs_of es) = nacks_below k rs m
+  /\ increasing (dlqs_of es) = true
+  /\ (forall j, In j (dlqs_of es) ->
+        k <= j < k + length rs /\ fst (nth (j - k) rs (false, false)) = true)
+  /\ dlq_first acked es = true.
+
+Lemma route_batch_monitor size t : forall fuel rs w s k acked,
+  Inv size t w s -> length rs <= fuel -> (forall j, In j acked -> j < k) ->
+  let '(w', k', es, tm) := route_batch fuel w k rs in
+  batch_mon k rs (fst (spec_route size t s rs)) acked es.
+Proof.
+  induction fuel as [|fuel IH]; intros rs w s k acked HI Hlen Hacked.
+  - destruct rs; [|cbn in Hlen; lia]. unfold batch_mon. cbn.
+    split; [reflexivity|split; [reflexivity|split; [intros j []|reflexivity]]].
+  - destruct rs as [|[x df] rs0].
+    { unfold batch_mon. cbn. split; [reflexivity|split; [reflexivity|split; [intros j []|reflexivity]]]. }
+    pose proof (route_batch_refines size t (S fuel) ((x, df) :: rs0) w s k HI Hlen) as Href.
+    cbn [route_batch] in *.
+    destruct (take_run x ((x, df) :: rs0)) as [run rest] eqn:Et.
+    destruct (take_run_spec _ _ _ _ Et) as (Ers & Erun).
+    assert (Hrunlen : 1 <= length run).
+    { cbn in Et. rewrite Bool.eqb_reflx in Et. destruct (take_run x rs0). inversion Et. cbn. lia. }
+    assert (Hrest : length rest <= fuel).
+    { assert (L : length ((x, df) :: rs0) = length run + length rest) by (rewrite Ers, app_length; reflexivity).
+      simpl length in L, Hlen. lia. }
+    set (dfs := map snd run) in *. set (n := length run) in *.
+    assert (Hn : length dfs = n) by (unfold dfs; apply map_length).
+    rewrite Ers in *.
+    pose proof (v2_step_refines size t w s x n HI) as Hstep. unfold v2_step in Hstep.
+    destruct x.
+    + destruct (nackN w n) as [w' acc] eqn:En.
+      destruct Hstep as (Hds & HI').
+      assert (Hacc : acc <= n).
+      { pose proof (run_spec_length size t (repeat true n) s) as L. rewrite <- Hds in L.
+        rewrite app_length, !repeat_length in L. lia. }
+      rewrite Erun in *. fold dfs in Href |- *. fold (nack_recs dfs) in Href |- *.
+      rewrite spec_route_nack_run in *. cbv zeta in *. rewrite Hn in *.
+      rewrite <- Hds, leading_true_shape in *.
+      set (wr := firstn acc dfs) in *.
+      assert (Hwr : length wr = acc) by (unfold wr; rewrite firstn_length; lia).
+      set (f := first_fail wr) in *.
+      assert (Hf : f <= acc) by (unfold f; pose proof (first_fail_le wr); lia).
+      assert (Hlenall : length (nack_recs dfs ++ rest) = n + length rest)
+        by (rewrite app_length; unfold nack_recs; rewrite map_length; lia).
+      (* facts about the DLQ confirmations of this run *)
+      assert (Hblock : forall j, In j (dlqs_of (dlq_oks k wr)) -> k <= j < k + acc).
+      { intros j Hj. apply dlqs_of_dlq_oks_bounds in Hj. lia. }
+      assert (Hrunmon : forall m', m' = f ->
+                batch_mon k (nack_recs dfs ++ rest) m' acked (dlq_oks k wr ++ seq_ev SrcAck k f)).
+      { intros m' ->. unfold batch_mon. rewrite dlqs_of_app, dlqs_of_seq_ack, app_nil_r.
+        split; [|split; [|split]].
+        - unfold f. rewrite dlqs_of_dlq_oks_below. symmetry. apply nacks_below_nack_recs. lia.
+        - apply dlqs_of_dlq_oks_increasing.
+        - intros j Hj. apply Hblock in Hj. split; [lia|]. apply nth_app_nack_recs. lia.
+        - rewrite dlq_first_app. rewrite dlq_first_dlq_oks by exact Hacked. cbn [andb].
+          apply dlq_first_seq_ack. }
+      destruct (f <? acc) eqn:Ef.
+      * cbn [fst]. apply Hrunmon. reflexivity.
+      * apply Nat.ltb_ge in Ef. assert (Hfa : f = acc) by lia.
+        destruct (acc <? n) eqn:Ea.
+        -- cbn [fst]. apply Hrunmon. lia.
+        -- apply Nat.ltb_ge in Ea. assert (Han : acc = n) by lia.
+           assert (Hacked' : forall j, In j (rev (acks_of (dlq_oks k wr ++ seq_ev SrcAck k f)) ++ acked) -> j < k + n).
+           { intros j Hj. apply in_app_or in Hj. destruct Hj as [Hj|Hj].
+             - apply in_rev in Hj. rewrite acks_of_app, acks_of_dlq_oks, acks_of_seq_ack in Hj.
+               cbn [app] in Hj. apply in_seq in Hj. lia.
+             - apply Hacked in Hj. lia. }
+           specialize (IH rest w' (spec_after size t s (repeat true n)) (k + n) _ HI' Hrest Hacked').
+           pose proof (spec_route_le size t rest (spec_after size t s (repeat true n))) as Hle.
+           destruct (route_batch fuel w' (k + n) rest) as [[[w'' k''] es'] tm].
+           destruct (spec_route size t (spec_after size t s (repeat true n)) rest) as [m st].
+           cbn [fst] in *. destruct IH as (I1 & I2 & I3 & I4).
+           destruct (Hrunmon f eq_refl) as (R1 & R2 & R3 & R4).
+           unfold batch_mon. rewrite !dlqs_of_app in *. rewrite dlqs_of_seq_ack, app_nil_r in *.
+           split; [|split; [|split]].
+           ++ rewrite filter_app.
+              rewrite (filter_all _ (dlqs_of (dlq_oks k wr)))
+                by (intros j Hj; apply Hblock in Hj; apply Nat.ltb_lt; lia).
+              replace (k + (n + m)) with (k + n + m) by lia. rewrite I1.
+              replace (n + m) with (length (nack_recs dfs) + m)
+                by (unfold nack_recs; rewrite map_length; lia).
+              rewrite nacks_below_app.
+              replace (length (nack_recs dfs)) with n by (unfold nack_recs; rewrite map_length; lia).
+              rewrite nacks_below_nack_recs by lia. f_equal.
+              rewrite <- (filter_all (fun j => j <? k + f) (dlqs_of (dlq_oks k wr)))
+                by (intros j Hj; apply Hblock in Hj; apply Nat.ltb_lt; lia).
+              rewrite R1. rewrite nacks_below_nack_recs by lia. rewrite Hfa, Han. reflexivity.
+           ++ apply (increasing_app _ _ (k + n)); auto.
+              ** intros j Hj. apply Hblock in Hj. lia.
+              ** intros j Hj. apply I3 in Hj. lia.
+           ++ intros j Hj. apply in_app_or in Hj. destruct Hj as [Hj|Hj].
+              ** apply R3. exact Hj.
+              ** destruct (I3 j Hj) as (B1 & B2). rewrite Hlenall. split; [lia|].
+                 rewrite app_nth2 by (unfold nack_recs; rewrite map_length; lia).
+                 unfold nack_recs at 1. rewrite map_length, Hn.
+                 replace (j - k - n) with (j - (k + n)) by lia. exact B2.
+           ++ rewrite dlq_first_app. rewrite R4. cbn [andb]. exact I4.
+    + destruct Hstep as (Hds & HI').
+      rewrite Erun in *. fold dfs in Href |- *. fold (ack_recs dfs) in Href |- *.
+      rewrite spec_route_ack_run in *. rewrite Hn in *.
+      assert (Hlenall : length (ack_recs dfs ++ rest) = n + length rest)
+        by (rewrite app_length; unfold ack_recs; rewrite map_length; lia).
+      assert (Hacked' : forall j, In j (rev (acks_of (seq_ev SrcAck k n)) ++ acked) -> j < k + n).
+      { intros j Hj. apply in_app_or in Hj. destruct Hj as [Hj|Hj].
+        - apply in_rev in Hj. rewrite acks_of_seq_ack in Hj. apply in_seq in Hj. lia.
+        - apply Hacked in Hj. lia. }
+      specialize (IH rest (ackN w n) (spec_after size t s (repeat false n)) (k + n) _ HI' Hrest Hacked').
+      destruct (route_batch fuel (ackN w n) (k + n) rest) as [[[w'' k''] es'] tm].
+      destruct (spec_route size t (spec_after size t s (repeat false n)) rest) as [m st].
+      cbn [fst] in *. destruct IH as (I1 & I2 & I3 & I4).
+      unfold batch_mon. rewrite !dlqs_of_app, dlqs_of_seq_ack. cbn [app].
+      split; [|split; [|split]].
+      * replace (k + (n + m)) with (k + n + m) by lia. rewrite I1.
+        replace (n + m) with (length (ack_recs dfs) + m)
+          by (unfold ack_recs; rewrite map_length; lia).
+        rewrite nacks_below_app.
+        replace (length (ack_recs dfs)) with n by (unfold ack_recs; rewrite map_length; lia).
+        rewrite nacks_below_ack_recs by lia. reflexivity.
+      * exact I2.
+      * intros j Hj. destruct (I3 j Hj) as (B1 & B2). rewrite Hlenall. split; [lia|].
+        rewrite app_nth2 by (unfold ack_recs; rewrite map_length; lia).
+        unfold ack_recs at 1. rewrite map_length, Hn.
+        replace (j - k - n) with (j - (k + n)) by lia. exact B2.
+      * rewrite dlq_first_app, dlq_first_seq_ack. cbn [andb]. exact I4.
+Qed.
+
+Lemma nacks_below_prefix : forall l1 k m l2,
+  m <= length l1 -> nacks_below k (l1 ++ l2) m = nacks_below k l1 m.
+Proof.
+  induction l1 as [|[x df] l1 IH]; intros k m l2 Hm; destruct m as [|m].
+  - destruct l2; reflexivity.
+  - cbn [length] in Hm. lia.
+  - reflexivity.
+  - cbn [length] in Hm. cbn [app nacks_below]. f_equal. apply IH. lia.
+Qed.
+
+Lemma batch_mon_weaken k b rest m acked es :
+  m <= length b -> batch_mon k b m acked es -> batch_mon k (b ++ rest) m acked es.
+Proof.
+  intros Hm (M1 & M2 & M3 & M4). unfold batch_mon.
+  split; [|split; [exact M2|split; [|exact M4]]].
+  - rewrite nacks_below_prefix by exact Hm. exact M1.
+  - intros j Hj. destruct (M3 j Hj) as (B1 & B2). rewrite app_length. split; [lia|].
+    rewrite app_nth1 by lia. exact B2.
+Qed.
+
+Lemma route_v2_monitor size t : forall bs w s k acked,
+  Inv size t w s -> (forall j, In j acked -> j < k) ->
+  let (es, tm) := route_v2 w k bs in
+  batch_mon k (concat bs) (fst (spec_route size t s (concat bs))) acked es.
+Proof.
+  induction bs as [|b bs IH]; intros w s k acked HI Hacked.
+  - unfold batch_mon. cbn. split; [reflexivity|split; [reflexivity|split; [intros j []|reflexivity]]].
+  - cbn [route_v2 concat].
+    pose proof (route_batch_refines size t (length b) b w s k HI (le_n _)) as Href.
+    pose proof (route_batch_monitor size t (length b) b w s k acked HI (le_n _) Hacked) as Hmon.
+    pose proof (spec_route_le size t b s) as Hle.
+    destruct (route_batch (length b) w k b) as [[[w' k'] es] tm].
+    destruct (spec_route size t s b) as [m st] eqn:Eb. cbn [fst] in *.
+    destruct Href as (A1 & A2 & A3).
+    destruct tm as [fatal|]; cbn [is_some] in A2; subst st.
+    + rewrite spec_route_app_stopped by (rewrite Eb; reflexivity). rewrite Eb. cbn [fst].
+      apply batch_mon_weaken; assumption.
+    + destruct (A3 eq_refl) as (B1 & B2 & B3). subst m k'.
+      rewrite spec_route_app_running by (rewrite Eb; reflexivity). rewrite Eb. cbn [fst].
+      assert (Hacked' : forall j, In j (rev (acks_of es) ++ acked) -> j < k + length b).
+      { intros j Hj. apply in_app_or in Hj. destruct Hj as [Hj|Hj].
+        - apply in_rev in Hj. rewrite A1 in Hj. apply in_seq in Hj. lia.
+        - apply Hacked in Hj. lia. }
+      specialize (IH w' (spec_after size t s (map fst b)) (k + length b) _ B3 Hacked').
+      destruct (route_v2 w' (k + length b) bs) as [es' tm'].
+      destruct (spec_route size t (spec_after size t s (map fst b)) (concat bs)) as [m' st'].
+      cbn [fst] in *.
+      destruct Hmon as (M1 & M2 & M3 & M4). destruct IH as (I1 & I2 & I3 & I4).
+      assert (Hall : forall j, In j (dlqs_of es) -> j < k + length b) by (intros j Hj; apply M3 in Hj; lia).
+      unfold batch_mon. rewrite dlqs_of_app. split; [|split; [|split]].
+      * rewrite filter_app.
+        rewrite (filter_all _ (dlqs_of es)) by (intros j Hj; apply Hall in Hj; apply Nat.ltb_lt; lia).
+        replace (k + (length b + m')) with (k + length b + m') by lia. rewrite I1.
+        rewrite nacks_below_app. f_equal.
+        rewrite nacks_below_prefix by lia. rewrite <- M1. symmetry. apply filter_all.
+        intros j Hj. apply Hall in Hj. apply Nat.ltb_lt. lia.
+      * apply (increasing_app _ _ (k + length b)); auto.
+        intros j Hj. apply I3 in Hj. lia.
+      * intros j Hj. rewrite app_length. apply in_app_or in Hj. destruct Hj as [Hj|Hj].
+        -- destruct (M3 j Hj) as (C1 & C2). split; [lia|]. rewrite app_nth1 by lia. exact C2.
+        -- destruct (I3 j Hj) as (C1 & C2). split; [lia|]. rewrite app_nth2 by lia.
+           replace (j - k - length b) with (j - (k + length b)) by lia. exact C2.
+      * rewrite dlq_first_app, M4. cbn [andb]. exact I4.
+Qed.
+
+(* v2 satisfies every clause of the property's monitor, for every window, outcome sequence,
+   DLQ failure point and batch partition *)
+Theorem routing_v2_satisfies_property size t bs :
+  let (es, tm) := route_v2 (new_win size t) 0 bs in
+  route_ok size t (concat bs) es (is_some tm) = true.
+Proof.
+  pose proof (routing_v2_handled_and_stop size t bs) as H1.
+  pose proof (route_v2_monitor size t bs (new_win size t) init_sp 0 [] (Inv_init size t)
+                (fun j (H : In j []) => match H with end)) as H2.
+  unfold route_ok.
+  destruct (route_v2 (new_win size t) 0 bs) as [es tm].
+  destruct (spec_route size t init_sp (concat bs)) as [m st]. cbn [fst] in H2.
+  destruct H1 as (A1 & A2). destruct H2 as (M1 & M2 & M3 & M4).
+  rewrite A1, A2. cbn [Nat.add] in M1. rewrite M1, M2, M4, Bool.eqb_reflx.
+  assert (E1 : list_eqb Nat.eqb (seq 0 m) (seq 0 m) = true)
+    by (apply (list_eqb_eq Nat.eqb Nat.eqb_eq); reflexivity).
+  assert (E2 : list_eqb Nat.eqb (nacks_below 0 (concat bs) m) (nacks_below 0 (concat bs) m) = true)
+    by (apply (list_eqb_eq Nat.eqb Nat.eqb_eq); reflexivity).
+  rewrite E1, E2.
+  assert (E3 : forallb (fun k => fst (nth k (concat bs) (false, false))) (dlqs_of es) = true).
+  { apply forallb_forall. intros j Hj. destruct (M3 j Hj) as (_ & C2). rewrite Nat.sub_0_r in C2. exact C2. }
+  rewrite E3. reflexivity.
+Qed.
